@@ -92,6 +92,14 @@ def diagnostics_corpus():
                 "patches": {b"p.patch": b"--- a/e1\n+++ b/e1\n@@ -0,0 +1 @@\n+x\n", b"q.patch": b"diff --git a/e2 b/e2\nold mode 100644\nnew mode 100755\n"}})
     out.append({"files": {b"e1": F(b"")}, "dirs": [], "applied": None, "series": b"q.patch\n",
                 "patches": {b"q.patch": b"diff --git a/e1 b/e1\nold mode 100644\nnew mode 100755\n"}})
+    # nothing to do: an empty range (push 0), an empty series, everything applied already
+    e1 = mk({b"f": F(body)}, b"--- a/f\n+++ b/f\n@@ -1 +1 @@\n-l1\n+L1\n")
+    e1["_goal"] = ("C", 0)
+    out.append(e1)
+    out.append({"files": {b"f": F(body)}, "dirs": [], "applied": None, "series": b"# nothing yet\n", "patches": {}})
+    e3 = mk({b"f": F(body.replace(b"l1\n", b"L1\n"))}, b"--- a/f\n+++ b/f\n@@ -1 +1 @@\n-l1\n+L1\n")
+    e3["applied"] = b"p.patch\n"
+    out.append(e3)
     # placeholder patches: zero-length patch files, nothing at all is loaded
     out.append({"files": {b"src/a.txt": F(b"one\ntwo\n")}, "dirs": [], "applied": None, "series": b"todo1.patch\ntodo2.patch\n",
                 "patches": {b"todo1.patch": b"", b"todo2.patch": b""}})
@@ -141,6 +149,8 @@ def run(ctx):
         cfg = l3common.rand_cfg(rng, threads=(1, 1, 2, 4))
         if item is not None:
             cfg["fuzz"] = 0          # the corpus is about hunks that fail: no fuzz to let them through
+            if "_goal" in w:
+                cfg["goal"] = w["_goal"]
         cfg["extra"] = ["-q"]
         base, out0, _ = l3gen.run_real(ctx.binary, w, cfg)
         cases.append((w, cfg))
